@@ -33,6 +33,25 @@ def frame_has_correct_length(control_field_length: int, frame_bytes: bytes):
     return True
 
 
+def frame_has_correct_check_sequences(
+    frame_bytes: bytes, hcs_position: Optional[int] = None
+):
+    """
+    The check sequences have to be correct for the bytes that were received. Comparing
+    them with the check sequences of the frame that is rebuilt from the parsed values is
+    not enough since several received headers can be rebuilt into the same frame.
+    The HCS (if the frame has one) covers the header, the FCS everything between the
+    opening flag and the FCS itself.
+    """
+    if hcs_position is not None:
+        received_hcs = frame_bytes[hcs_position : hcs_position + 2]
+        if received_hcs != HCS.calculate_for(frame_bytes[1:hcs_position]):
+            return False
+    if frame_bytes[-3:-1] != FCS.calculate_for(frame_bytes[1:-3]):
+        return False
+    return True
+
+
 class _AbstractHdlcFrame(abc.ABC):
     """
     HDLC frames start and end with the HDLC Frame flag 0x7E
@@ -232,6 +251,9 @@ class UnNumberedAcknowledgmentFrame(BaseHdlcFrame):
 
         frame = cls(destination_address, source_address, information)
 
+        if not frame_has_correct_check_sequences(frame_bytes, hcs_position):
+            raise hdlc_exceptions.HdlcParsingError("HCS or FCS is not correct")
+
         if hcs != frame.hcs:
             raise hdlc_exceptions.HdlcParsingError(
                 f"HCS is not correct. " f"Calculated: {frame.hcs!r}, in data: {hcs!r}"
@@ -298,6 +320,9 @@ class ReceiveReadyFrame(BaseHdlcFrame):
             receive_sequence_number=control.receive_sequence_number,
             final=control.is_final,
         )
+
+        if not frame_has_correct_check_sequences(frame_bytes):
+            raise hdlc_exceptions.HdlcParsingError("FCS is not correct")
 
         if fcs != frame.fcs:
             raise hdlc_exceptions.HdlcParsingError("FCS is not correct")
@@ -377,6 +402,9 @@ class InformationFrame(BaseHdlcFrame):
             final=information_control.final,
         )
 
+        if not frame_has_correct_check_sequences(frame_bytes, hcs_position):
+            raise hdlc_exceptions.HdlcParsingError("HCS or FCS is not correct")
+
         if hcs != frame.hcs:
             raise hdlc_exceptions.HdlcParsingError(
                 f"HCS is not correct Calculated: {frame.hcs!r}, in data: {hcs!r}"
@@ -432,6 +460,9 @@ class DisconnectFrame(BaseHdlcFrame):
         fcs = frame_bytes[-3:-1]
 
         frame = cls(destination_address, source_address)
+
+        if not frame_has_correct_check_sequences(frame_bytes):
+            raise hdlc_exceptions.HdlcParsingError("FCS is not correct")
 
         if fcs != frame.fcs:
             raise hdlc_exceptions.HdlcParsingError("FCS is not correct")
@@ -497,6 +528,9 @@ class UnnumberedInformationFrame(BaseHdlcFrame):
             segmented=frame_format.segmented,
             final=information_control.final,
         )
+
+        if not frame_has_correct_check_sequences(frame_bytes, hcs_position):
+            raise hdlc_exceptions.HdlcParsingError("HCS or FCS is not correct")
 
         if hcs != frame.hcs:
             raise hdlc_exceptions.HdlcParsingError(
